@@ -352,7 +352,7 @@ def plan(files):
     def want(new, old, what):
         if new == old:
             return
-        if new in B["vocab"]:
+        if new in B["vocab"] or not IDENT.fullmatch(new):
             return False
         if new in tokens and tokens[new] != old:
             conflicts.add(new)
@@ -462,6 +462,146 @@ def restore_params(d):
     return notes
 
 
+SCALAR_TYS = ("u8", "u16", "u32", "u64", "usize", "i8", "i16", "i32", "i64", "isize", "bool", "char")
+
+
+def erase_newtypes(d):
+    """A *new* private struct with exactly one field of scalar type (`struct Radix(u8)`, `struct Depth(u8)`) is a
+    name for that scalar: wrapping a reviewed `u8` into it changes no behaviour.  The facts are rewritten as if the
+    wrapper were not there - its type is the scalar's, constructing it is a move, `.0` is the value itself, a constant
+    of it is the integer inside, and the derived `==` / `!=` on it are the scalar comparisons - so that rules which
+    follow a radix, a depth budget or a table entry as an integer keep doing so.  Methods declared on the wrapper stay
+    ordinary local functions (now over the scalar)."""
+    B = baseline()
+    key = "%s.%s" % (d.get("crate"), d.get("config"))
+    reviewed = B["adts"].get(key)
+    notes = []
+    if reviewed is None:
+        return notes
+    erased = {}
+    for p, a in d.get("adts", {}).items():
+        if p in reviewed or a.get("kind") != "struct" or len(a["variants"]) != 1:
+            continue
+        fl = a["variants"][0]["fields"]
+        if len(fl) == 1 and fl[0]["ty"] in SCALAR_TYS:
+            erased[p] = fl[0]["ty"]
+    if not erased:
+        return notes
+    derived_cmp = {}
+    for fd in d["fns"]:
+        if fd.get("derived") and fd.get("impl_trait") == "std::cmp::PartialEq" and fd.get("self_ty") in erased:
+            derived_cmp[fd["path"]] = "Eq" if fd["path"].endswith("::eq") else "Ne"
+    ty_rx = re.compile(r"(?<![A-Za-z0-9_:])(%s)(?![A-Za-z0-9_:<])" % "|".join(sorted(map(re.escape, erased), key=len, reverse=True)))
+
+    def fix_ty(t):
+        return ty_rx.sub(lambda m: erased[m.group(1)], t) if isinstance(t, str) else t
+
+    def fix_place(pl):
+        pl["p"] = [e for e in pl["p"] if not (isinstance(e, dict) and e.get("adt") in erased and "f" in e)]
+
+    def fix_op(op):
+        if not isinstance(op, dict):
+            return
+        if op.get("c") in ("copy", "move") and "pl" in op:
+            fix_place(op["pl"])
+        elif op.get("c") == "const":
+            if "newtype_int" in op and op.get("ty") in erased:
+                op["int"] = op.pop("newtype_int")
+            if "ty" in op:
+                op["ty"] = fix_ty(op["ty"])
+
+    def fix_rv(rv):
+        if rv.get("k") == "agg" and rv.get("adt") in erased and len(rv.get("fields") or []) == 1:
+            op = rv["fields"][0]
+            rv.clear()
+            rv.update({"k": "use", "op": op})
+        for k in ("op", "a", "b"):
+            fix_op(rv.get(k))
+        for f in rv.get("fields") or []:
+            fix_op(f)
+        if "pl" in rv and isinstance(rv["pl"], dict):
+            fix_place(rv["pl"])
+        for k in ("from", "to", "ty"):
+            if k in rv:
+                rv[k] = fix_ty(rv[k])
+
+    for fd in d["fns"]:
+        # locals that hold a reference to a promoted constant of a wrapper type (`&Radix::DECIMAL`): the integer inside
+        const_refs = {}
+        ndefs = {}
+        for b in fd["blocks"]:
+            for st in b["stmts"]:
+                if st.get("k") == "assign" and not st["place"]["p"]:
+                    ndefs[st["place"]["l"]] = ndefs.get(st["place"]["l"], 0) + 1
+                    op = st["rv"].get("op") if st["rv"].get("k") == "use" else None
+                    if isinstance(op, dict) and op.get("c") == "const" and isinstance(op.get("bytes"), list) and op["bytes"] \
+                            and (op.get("ty") or "").lstrip("&").replace("'static ", "") in erased:
+                        inner = erased[(op.get("ty") or "").lstrip("&").replace("'static ", "")]
+                        const_refs[st["place"]["l"]] = {"c": "const", "ty": inner,
+                                                        "int": int.from_bytes(bytes(x & 255 for x in op["bytes"]), "little")}
+            if b["term"].get("k") == "call" and not b["term"]["dest"]["p"]:
+                ndefs[b["term"]["dest"]["l"]] = ndefs.get(b["term"]["dest"]["l"], 0) + 1
+        const_refs = {l: v for l, v in const_refs.items() if ndefs.get(l) == 1}
+        for l in fd["locals"]:
+            l["ty"] = fix_ty(l["ty"])
+        for k in ("self_ty", "impl_trait_full"):
+            if fd.get(k):
+                fd[k] = fix_ty(fd[k])
+        for b in fd["blocks"]:
+            for st in b["stmts"]:
+                if st.get("k") == "assign":
+                    fix_place(st["place"])
+                    fix_rv(st["rv"])
+            t = b["term"]
+            if t.get("k") == "call":
+                for a in t["args"]:
+                    fix_op(a)
+                fix_place(t["dest"])
+                t["arg_tys"] = [fix_ty(x) for x in t.get("arg_tys", [])]
+                c = t["callee"]
+                if "substs" in c:
+                    c["substs"] = [fix_ty(x) for x in c["substs"]]
+                tgt = c.get("resolved") or c.get("path")
+                cmp_op = derived_cmp.get(tgt)
+                if cmp_op is None and tgt in ("std::cmp::PartialEq::ne", "std::cmp::PartialEq::eq"):
+                    # the provided `ne` (or a call through the trait) on a wrapper whose `eq` is derived
+                    m = re.match(r"<(.+) as std::cmp::PartialEq>::(eq|ne)$", c.get("full") or "")
+                    if m and m.group(1) in erased and any(k.startswith("<%s as std::cmp::PartialEq>::eq" % m.group(1)) for k in derived_cmp):
+                        cmp_op = "Eq" if m.group(2) == "eq" else "Ne"
+                if cmp_op is not None and len(t["args"]) == 2 and "t" in t:
+                    # `a == b` on the wrapper: the scalar comparison
+                    ops = []
+                    for a in t["args"]:
+                        if a.get("c") in ("copy", "move") and not a["pl"]["p"] and a["pl"]["l"] in const_refs:
+                            ops.append(dict(const_refs[a["pl"]["l"]]))
+                        elif a.get("c") in ("copy", "move"):
+                            ops.append({"c": "copy", "pl": {"l": a["pl"]["l"], "p": list(a["pl"]["p"]) + ["*"]}})
+                        elif a.get("c") == "const" and isinstance(a.get("bytes"), list) and a["bytes"]:
+                            ops.append({"c": "const", "ty": erased.get(fd and a.get("ty", "").lstrip("&"), "u8"),
+                                        "int": int.from_bytes(bytes(x & 255 for x in a["bytes"]), "little")})
+                        else:
+                            ops = None
+                            break
+                    if ops:
+                        b["stmts"].append({"k": "assign", "place": t["dest"], "line": t.get("line"),
+                                           "rv": {"k": "bin", "op": cmp_op, "a": ops[0], "b": ops[1]}})
+                        b["term"] = {"k": "goto", "t": t["t"], "line": t.get("line")}
+            elif t.get("k") in ("switch", "assert", "drop"):
+                if isinstance(t.get("op"), dict):
+                    fix_op(t["op"])
+                if isinstance(t.get("place"), dict):
+                    fix_place(t["place"])
+                for o in t.get("ops") or []:
+                    fix_op(o)
+    for p, a in d.get("adts", {}).items():
+        for v in a["variants"]:
+            for f in v["fields"]:
+                f["ty"] = fix_ty(f["ty"])
+    for p, sc in sorted(erased.items()):
+        notes.append("the new private wrapper `%s` around one `%s` is read as that `%s`" % (p, sc, sc))
+    return notes
+
+
 def restore_files(d):
     """Scopes of rules are written in terms of the reviewed tree's files.  A function that was moved to another file
     keeps the scope it was reviewed in (`reviewed_file`; reports still use the real file and line), and functions that
@@ -512,8 +652,15 @@ def normalise(outdir, fact_files, use_plan=None):
     notes = list(pl["notes"])
     for f, t in texts.items():
         t2 = _exact_sub(_token_sub(_path_sub(_module_sub(t, pl.get("modules", {})), pl.get("paths", {})), pl["tokens"]), pl["exact"])
-        d = json.loads(t2)
-        pn = restore_params(d) if isinstance(d, dict) and "fns" in d else []
+        try:
+            d = json.loads(t2)
+        except ValueError:
+            # never leave a tree without facts: the file is kept as the driver wrote it
+            notes.append("normalisation of %s did not give well-formed facts and was not applied" % f)
+            t2 = t
+            d = json.loads(t)
+        pn = erase_newtypes(d) if isinstance(d, dict) and "fns" in d else []
+        pn += restore_params(d) if isinstance(d, dict) and "fns" in d else []
         pn += restore_files(d) if isinstance(d, dict) and "fns" in d else []
         notes.extend(pn)
         if pl.get("members"):
